@@ -131,6 +131,19 @@ def run(ctx):
         if not (r["outcome"] == "opened" and r["exists_after"] and r["blocks"] == 0 and r["sections"] == 0
                 and r["version"] == lib and r["id_valid"]):
             failures.append(("open of a missing path must create an empty file", {"mode": mode, "path": "missing"}, r))
+    # files that exist but are not NIX files (zero bytes, text, plain HDF5): only overwrite may touch them
+    for r in impl.get("foreign", []):
+        inp = {"mode": r["mode"], "existing_file": r["kind"]}
+        if r["mode"] in ("r", "a"):
+            if r["outcome"] == "opened":
+                failures.append(("a file that is not a NIX file was opened", inp, dict(r, outcome="opened")))
+            elif not r["unchanged"] and not (r["kind"] == "empty" and r["mode"] == "a"):
+                # (libhdf5 itself turns a ZERO-LENGTH file into an empty HDF5 container when asked to open it
+                # read-write; nixio then refuses it. There was no content to keep, and the property does not ask for
+                # byte identity of a refused read-write open - so only the refusal is demanded in that one corner.)
+                failures.append(("a refused open changed the bytes on disk", inp, dict(r, outcome="changed")))
+        elif r["outcome"] != "opened" or not r.get("write_accepted") or r.get("version") != lib:
+            failures.append(("overwrite did not yield a fresh writable file", inp, dict(r, outcome=r["outcome"])))
     disagreements = []
     if core.vo_ok("Pure/VersionCheck.v"):
         verd, errs = core.eval_verdicts(ctx.workdir, HEADER, "open_case", "check_open", terms, tag="open", shard_size=600)
@@ -210,7 +223,7 @@ def run(ctx):
         "rule": "crafted files (a real NIX file with a block, an array and a section whose header attributes are rewritten "
                 "with h5py): version triples {0..3}^3 and the 27 neighbours of the library version x 3 modes x id "
                 "(valid/invalid/missing), other/missing format tags, malformed/missing version attributes; plus the three modes on "
-                "a missing path. quick = all cases at versions 1.1.0, 1.2.0 and the library's + 500 sampled; thorough = the "
+                "a missing path, and on existing files that are not NIX files (zero bytes, text, plain HDF5). quick = all cases at versions 1.1.0, 1.2.0 and the library's + 500 sampled; thorough = the "
                 "whole grid. Every case is distinct and non-trivial (a header plus a mode). Read-only sessions: random histories with "
                 "read-only reopens; at each of them every public property and argument-free reader method (reflection over the "
                 "classes) of every entity, dimension, feature and property is evaluated in the read-only session and in a writable "
